@@ -155,6 +155,12 @@ AInitEff(opts, zmo, zmod) ==
   /\ inited' = TRUE /\ negopt' = opts
   /\ noopen' = (noopen /\ zmo) /\ noopendir' = (noopendir /\ zmod)
   /\ UNCHANGED <<slot, mroot, given, gmap, pn, nextino, mp, issued>>
+\* INIT refused because a mounted backend refuses its init(): the VFS stays un-negotiated (a later INIT is a
+\* first INIT again); what the code promises beyond that: the open/opendir switches have already followed the
+\* client's capabilities
+AInitRefusedEff(zmo, zmod) ==
+  /\ noopen' = (noopen /\ zmo) /\ noopendir' = (noopendir /\ zmod)
+  /\ UNCHANGED <<slot, mroot, given, gmap, pn, nextino, mp, issued, inited, negopt>>
 
 (* save + restore into a fresh instance + re-attaching the backends: a stuttering step *)
 ASaveRestore == UNCHANGED avars
